@@ -1,4 +1,5 @@
 import PepperProofs.ConstraintGenLoad
+import PepperProofs.ConstraintGenSimT
 /-!
 # C15 — over-constrained specifications are reported, not passed on
 
@@ -51,22 +52,23 @@ theorem no_other_error {tbl : CodeTable} (hl : tbl.lawful = true) {mode : Layout
   obtain ⟨_, h | h | ⟨a, h⟩⟩ := getConstraintsT_spec hl ok hs hb <;>
     (rw [h.1]; exact ⟨(by simp), (by simp), (by simp)⟩)
 
-/-- **Second sentence of C15, strand layout: a satisfiable specification is never rejected for being
-    over-constrained.**  If a satisfying assignment of `Pil.denote spec` exists, then (after the seeding of the
-    strand layout) `get_constraints` does not fail with the `ValueError` of `propagate_templates`.  The proof
-    transports the assignment to the seeded graph along the denotation of nodes (`denS`): every seeded `eq` link
-    joins nodes whose nucleotides the design forces equal, every `wc` link nodes forced complementary
-    (soundness of the seeding, `seeds_sound_strand`), and every node's template allows what the design allows for
-    its nucleotide. -/
-theorem satisfiable_not_rejected_strand {stmts : List Stmt} {spec : Spec}
+/-- **Second sentence of C15, both layouts: a satisfiable specification is never rejected for being
+    over-constrained.**  For every document the reader accepts: if a satisfying assignment of `Pil.denote spec`
+    exists, then (after the seeding) `get_constraints` does not fail with the `ValueError` of
+    `propagate_templates`.  The proof transports the assignment to the seeded graph along the denotation of nodes
+    (`denOf`: a layout position stands for the nucleotide of the strand that sits there, `(num, x)` for the `x`-th
+    nucleotide of the view numbered `num`): every seeded `eq` link joins nodes whose nucleotides the design forces
+    equal, every `wc` link nodes forced complementary (soundness of the seeding, `seedSound`), and every node's
+    template allows what the design allows for its nucleotide. -/
+theorem satisfiable_not_rejected {mode : Layout} {stmts : List Stmt} {spec : Spec}
     (hload : Pil.load Generated.nupackTable stmts {} = .ok spec) {s : Seeds} {c : Cons}
-    (hs : seeds .strand spec = .ok s) (hb : build s = .ok c)
+    (hs : seeds mode spec = .ok s) (hb : build s = .ok c)
     (hsat : Satisfiable Generated.pilTable (Pil.denote spec)) :
-    getConstraints .strand spec ≠ .error .overconstrained := by
+    getConstraints mode spec ≠ .error .overconstrained := by
   intro e
   have wf := load_wf hload
   have ok := load_specCodes hload
-  exact (error_iff_graph_unsat pilLawful ok hs hb).1 e (graphSat_of_satisfiable_strand wf ok pil_N.2 hs hb hsat)
+  exact (error_iff_graph_unsat pilLawful ok hs hb).1 e (graphSat_of_satisfiable wf ok pil_N.2 hs hb hsat)
 
 /-- Every document the reader accepts is well formed (`SpecWF`: names resolve to the objects that were defined,
     lengths and nucleotides of super-sequences and strands are those of their items, structures refer to defined
@@ -76,7 +78,7 @@ theorem loaded_wellformed {stmts : List Stmt} {spec : Spec}
     SpecWF spec ∧ SpecCodes Generated.pilTable spec := ⟨load_wf hload, load_specCodes hload⟩
 
 /-- The full statement of the property for the model (not yet a theorem in the direction "unsatisfiable ⇒
-    reported" and for the structure layout; that direction needs the completeness half of the simulation: every
+    reported"; that direction needs the completeness half of the simulation: every
     semantic link and every pair of nodes with the same nucleotide is connected in the seeded graph).  It is the
     statement the correspondence and the oracle check on every sampled document. -/
 def error_iff_unsat_statement : Prop :=
